@@ -1,7 +1,7 @@
 # Sizing and claim for C11 (see props/__init__.py)
 SPEC = {
         "quick": {"rc_cases": 60000, "rc_procs": 12, "enum": True},
-        "thorough": {"rc_cases": 600000, "rc_procs": 16, "enum": True},
+        "thorough": {"rc_cases": 250000, "rc_procs": 16, "enum": True},
         "claim": {
             "category": "exploration",
             "technique": "bounded-exhaustive integer flag sweep + rapidcheck-generated multi-field format calls compared byte for byte with an independent interpreter of the format mini-language",
